@@ -187,7 +187,59 @@ Delim ==
   \cup { << <<Emit1(Reset(P("+", <<I(1), InnerReset>>))), Emit1(C(SymV("after")))>> >>,
           << <<Emit1(P("+", <<I(1), Shift("k2", I(5))>>)), Emit1(C(SymV("not-reached")))>>, <<Emit1(C(SymV("next-unit")))>> >> }
 
+(* store: assigned variables x capture depth x mutation site x read site (assignment conversion) *)
+Bump(n) == SetE(n, P("+", <<V(n), I(1)>>))
+\* how the variable "n" (initial value 10) is bound around a body
+BindN(kind, body) ==
+  CASE kind = "let" -> Let(<< <<"n", I(10)>> >>, body)
+    [] kind = "param" -> App(Lam(<<"n">>, "", body), <<I(10)>>)
+    [] kind = "letrec" -> LetRec(<< <<"n", I(10)>> >>, body)
+    [] kind = "define" -> Let(<< >>, Body(<<Def("n", I(10))>>, body))
+    [] kind = "letstar2" -> LetStar(<< <<"m", I(1)>>, <<"n", P("+", <<V("m"), I(9)>>)>> >>, body)
+    [] kind = "rest" -> App(Lam(<< >>, "r", Let(<< <<"n", P("car", <<V("r")>>)>> >>, body)), <<I(10), I(11)>>)
+BKinds == {"let", "param", "letrec", "define", "letstar2", "rest"}
+\* bodies over n: who mutates and who reads, at which closure depth
+StoreBodies ==
+  { \* closure reads after a direct assignment
+    Let(<< <<"g", Lam(<< >>, "", V("n"))>> >>, Begin(<<Bump("n"), Emit1(App(V("g"), << >>)), Emit1(V("n"))>>)),
+    \* closure assigns, direct read
+    Let(<< <<"inc", Lam(<< >>, "", Bump("n"))>> >>, Begin(<<App(V("inc"), << >>), App(V("inc"), << >>), Emit1(V("n"))>>)),
+    \* two sibling closures share the variable
+    Let(<< <<"inc", Lam(<< >>, "", Bump("n"))>>, <<"get", Lam(<< >>, "", V("n"))>> >>,
+        Begin(<<App(V("inc"), << >>), Emit1(App(V("get"), << >>)), App(V("inc"), << >>), Emit1(App(V("get"), << >>))>>)),
+    \* depth 2: closure returning a closure
+    Let(<< <<"mk", Lam(<< >>, "", Lam(<< >>, "", Begin(<<Bump("n"), V("n")>>)))>> >>,
+        Let(<< <<"a", App(V("mk"), << >>)>>, <<"b", App(V("mk"), << >>)>> >>,
+            Begin(<<Emit1(App(V("a"), << >>)), Emit1(App(V("b"), << >>)), Emit1(App(V("a"), << >>)), Emit1(V("n"))>>))),
+    \* shadowing: the inner n is a different variable
+    Begin(<<Let(<< <<"n", I(20)>> >>, Begin(<<Bump("n"), Emit1(V("n"))>>)), Emit1(V("n"))>>),
+    \* assignment in one branch only, read after the if
+    Begin(<<If(P("<", <<V("n"), I(5)>>), Bump("n"), SetE("n", I(0))), Emit1(V("n"))>>),
+    \* mutation inside a loop, captured by a closure created in the loop
+    Let(<< <<"fs", NLet("loop", << <<"i", I(0)>>, <<"acc", C(Nil)>> >>,
+                        If(P("<", <<V("i"), I(3)>>),
+                           Begin(<<Bump("n"), App(V("loop"), <<P("+", <<V("i"), I(1)>>), P("cons", <<Lam(<< >>, "", V("n")), V("acc")>>)>>)>>),
+                           V("acc")))>> >>,
+        Begin(<<Emit1(P("map", <<Lam(<<"f">>, "", App(V("f"), << >>)), V("fs")>>)), Emit1(V("n"))>>)),
+    \* set! returns the previous value (D3) and the new value is visible to a closure created before
+    Let(<< <<"g", Lam(<< >>, "", V("n"))>> >>, Begin(<<Emit1(SetE("n", I(77))), Emit1(App(V("g"), << >>))>>)),
+    \* the variable escapes through a box as well
+    Let(<< <<"b", P("box", <<V("n")>>)>> >>, Begin(<<Bump("n"), P("set-box!", <<V("b"), P("+", <<P("unbox", <<V("b")>>), I(100)>>)>>),
+                                                   Emit1(V("n")), Emit1(P("unbox", <<V("b")>>))>>)),
+    \* continuation re-entry must see the CURRENT contents of an assigned variable (the re-entry counter
+    \* lives in a box so that the loop ends whatever happens to n)
+    Let(<< <<"k", P("box", <<C(BoolV(FALSE))>>)>>, <<"c", P("box", <<I(0)>>)>> >>,
+        Begin(<<Emit1(P("+", <<V("n"), P("call/cc", <<Lam(<<"kk">>, "", Begin(<<P("set-box!", <<V("k"), V("kk")>>), I(0)>>))>>)>>)),
+                Bump("n"), P("set-box!", <<V("c"), P("+", <<P("unbox", <<V("c")>>), I(1)>>)>>),
+                If(P("<", <<P("unbox", <<V("c")>>), I(3)>>), App(P("unbox", <<V("k")>>), <<I(1000)>>), Emit1(V("n")))>>)) }
+Store == { << <<Def("x", I(0)), Def("y", I(1))>>, <<BindN(bk, body)>> >> : bk \in BKinds, body \in StoreBodies }
+         \cup
+         \* the same bodies with n a GLOBAL assigned from functions defined in an earlier unit
+         { << <<Def("n", I(10))>>, <<Def("run", Lam(<< >>, "", body))>>, <<App(V("run"), << >>), Emit1(V("n"))>>, <<App(V("run"), << >>), Emit1(V("n"))>> >>
+           : body \in StoreBodies }
+
 Programs == CASE FAMILY = "calls" -> Calls
+              [] FAMILY = "store" -> Store
               [] FAMILY = "delim" -> Delim
               [] FAMILY = "tail" -> TailFam
               [] FAMILY = "control" -> Control
